@@ -168,7 +168,13 @@ pub fn generate(prop: &str, rng: &mut Rng, plan: &mut Plan, index: u64) {
     sp.setpgid = rng.chance(1, 4);
     // a signal handler of the application runs while the parent is blocked in wait()
     if prop != "C11" && rng.chance(1, 6) {
-        plan.knobs.faults.eintr = Some((1 + rng.below(3) as u32, 1 + rng.below(3) as u32, 4));
+        plan.knobs.faults.eintr = Some((1 + rng.below(3) as u32, 1 + rng.below(3) as u32, *rng.pick(&[4u8, 4, 12])));
+        plan.knobs.batch = "faulty".into();
+    }
+    // ... or while it naps between two status checks of wait_timeout (the nap must go on for
+    // the time that is left, not start over)
+    if prop == "C11" && rng.chance(1, 5) {
+        plan.knobs.faults.eintr = Some((1 + rng.below(6) as u32, 1 + rng.below(40) as u32, 8));
         plan.knobs.batch = "faulty".into();
     }
     plan.body = Body::Status(sp);
